@@ -123,3 +123,17 @@ Theorem C10_animation_frames_pixels : forall e o p p', has_chunk name_acTL (aux_
           (frames p) (frames p').
 Proof. exact animation_frames_pixels. Qed.
 Print Assumptions C10_animation_frames_pixels.
+
+(* "the same play count": the animation control chunks (acTL: number of frames, number of plays) read from the written chunk
+   sequence are exactly those of the input file, in order *)
+From OxiVerif Require Import Proofs.ApngControl.
+Theorem C10_control_file_to_file : forall e o bytes out cs,
+  keeps_animation o -> bytes_ok bytes -> spec_parse_png bytes = Some cs ->
+  Forall (fun c => named spec_IDAT c = true -> snd c <> []) cs ->
+  optimize_from_memory e o bytes = Ok out ->
+  out = bytes \/
+  exists p', out = output p' /\ output p' = PNG_SIG ++ serialize (output_chunks p') /\
+    List.filter named_actl (output_chunks p') = List.filter named_actl cs /\
+    spec_apng_control (output_chunks p') = spec_apng_control cs.
+Proof. exact apng_control_file_to_file. Qed.
+Print Assumptions C10_control_file_to_file.
